@@ -1183,7 +1183,7 @@ func (w *vfc18World) replayOne(r *vfutil.Rand, cmds []vfc18Cmd, fb string, src s
 		nCtl = 1
 	}
 	if len(blk.Cmds) != len(cmds)+nCtl {
-		s.Violate("unit-block-shape", fmt.Sprintf("block has %d commands, want %d", len(blk.Cmds), len(cmds)+nCtl), replay)
+		s.Violate("tie-shape:unit-block-shape", fmt.Sprintf("block has %d commands, want %d", len(blk.Cmds), len(cmds)+nCtl), replay)
 		return
 	}
 	checkKey := func(k []byte, what string) {
